@@ -471,8 +471,14 @@ def modulation_events(ctx, orc, case, rng):
         def wrap(x):
             return (x + 0.5) % 1.0 - 0.5
 
-        e_add = float(np.abs(wrap(written["total"] - (spos + u.real.sum(axis=0) @ Linv))).max())
-        e_add = max(e_add, float(np.abs(wrap(written["orig"] - spos)).max()))
+        # POSCAR files list the atoms grouped by species (order of first appearance, stable)
+        seen = []
+        for sy in sc.symbols:
+            if sy not in seen:
+                seen.append(sy)
+        perm = [j for sy in seen for j in range(Na) if sc.symbols[j] == sy]
+        e_add = float(np.abs(wrap(written["total"] - (spos + u.real.sum(axis=0) @ Linv)[perm])).max())
+        e_add = max(e_add, float(np.abs(wrap(written["orig"] - spos[perm])).max()))
         for i, (q, band, A, argd) in enumerate(modes):
             qv = np.array(q)
             per = u[i] * np.sqrt(Na * masses)[:, None] / A * np.exp(-2j * np.pi * (xp @ qv))[:, None]
@@ -503,7 +509,7 @@ def modulation_events(ctx, orc, case, rng):
             cand = [z for z in flat if abs(z) >= top * (1 - 1e-9)]
             e_arg = min(abs(np.angle(z * np.exp(-1j * np.pi * argd / 180.0))) for z in cand) / (2 * np.pi)
             e_pos = float(np.abs(wrap(np.array(cells[i].scaled_positions) - (spos + u[i].real @ Linv))).max())
-            e_pos = max(e_pos, float(np.abs(wrap(written["each"][i] - (spos + u[i].real @ Linv))).max()))
+            e_pos = max(e_pos, float(np.abs(wrap(written["each"][i] - (spos + u[i].real @ Linv)[perm])).max()))
             rel, mv, exact = [], [], True
             for j, st in enumerate(sites):
                 f0 = first[st["a"]]
@@ -518,7 +524,7 @@ def modulation_events(ctx, orc, case, rng):
                 rel.append(int(np.rint(t)) % 12)
                 mv.append(True)
             ev = dict(arg=dict(form=form, val=arg), Mlog=Mlog.tolist(), na=na, wave=waves[i], sites=sites, rel=rel, mv=mv,
-                      exact=bool(exact), label=label0, mode=[band, A, argd],
+                      exact=bool(exact), label=label0, mode="band=%d A=%g arg=%g" % (band, A, argd),
                       num=dict(spread=units(e_spread), norm=units(e_norm), eigen=units(e_eig), freq=units(e_frq),
                                arg=units(e_arg), pos=units(e_pos), add=units(e_add)))
             events.append(ev)
@@ -664,7 +670,21 @@ def run(ctx):
     ctx.rule = ("unfolding: every (crystal, supercell, centring, wave vector) of an ideal supercell, plus every supercell "
                 "matrix x atoms per cell x folding vector of the exact model; modulation: every (crystal, dimension "
                 "argument, commensurate q, band, amplitude, argument) mode, plus every behaviour of the exact model")
+    only = None
+    if ctx.replay_path:       # ./check X02 --replay <file>: same tier and seed, the part that produced the violation
+        import json
+        with open(ctx.replay_path) as f:
+            rec = json.load(f)
+        ctx.tier, ctx.seed = rec.get("tier", ctx.tier), rec.get("seed", ctx.seed)
+        only = "unfolding" if "nfolding" in rec.get("key", "") else "modulation"
+        print("replaying %s: %s" % (rec.get("key"), json.dumps(rec.get("detail", {}).get("witness", rec.get("detail")), default=str)[:500]))
     oracles = build_oracles(ctx)
+    if only == "unfolding":
+        run_unfolding_model(ctx)
+        return run_unfolding(ctx, oracles)
+    if only == "modulation":
+        run_modulation_model(ctx)
+        return run_modulation(ctx, oracles)
     run_unfolding_model(ctx)
     run_unfolding(ctx, oracles)
     run_modulation_model(ctx)
